@@ -37,7 +37,8 @@ CFG = dict(
          "after the cancellation: wires drained, RecvMsg, SendMsg, RecvMsg, CloseSend by the caller, the handler awaits its context, sends, "
          "returns; the other call is then completed. Judged: client half against Model/Client.v (all orders), status codes of RecvMsg/SendMsg "
          "(Canceled vs DeadlineExceeded exactly), pending operations, reset envelopes on the tap (count, id, owner), handler context at every "
-         "quiescent point after the reset reached the server, orphans at the end; plus 40 repetitions of the FORCED cancel-then-send schedule "
+         "quiescent point after the reset reached the server, orphans at the end; the same traces x prefixes with exactly the RST_STREAM Write "
+         "refused (quick: every other prefix): the caller's side is judged (pending operations return, status codes), the handler is not; plus 40 repetitions of the FORCED cancel-then-send schedule "
          "(stream loop held at the yield point cs.loop.read while a SendMsg tears the registration down: regression of D-07s)",
     assumptions=["payloads, metadata, methods and names are opaque tokens for client and server",
                  "the transport checks the context of a Write (Endpoint.CheckCtx); wires are FIFO and lossless (C19 for the shipped transports)",
